@@ -64,6 +64,7 @@ def _spec(i):
         ops.append(S.op_add('comment', 'CM', name, text=['TEXT-1', '1', '1.0'] if i == 3 else ['1.0', 'TEXT-1']))
         ops.append(S.op_add('no_format', 'NF', name, consumer_name='CONSUMER'))
         ops.append({'op': 'nfdata', 'lf': 'L0', 'nf': 'NF', 'data': {'$bytes': '00017f80ff' if i == 3 else '0100'}})
+        ops.append({'op': 'nfdata', 'lf': 'L0', 'nf': 'NF', 'data': 'text payload %d' % i})
         ops.append(S.op_add('well_reference_point', 'WR', name, magnetic_declination={'$f': '8000000000000000'} if i == 5 else 0))
     return {'sul': {'max_record_length': 8192, 'set_identifier': 'SET-1'}, 'ops': ops, 'write': {}}
 
@@ -113,9 +114,12 @@ def _muts_since_build(h):
     return out
 
 
-def mutation_ops(m):
+def mutation_ops(m, spec=None):
     if m == 'origin_ref':
-        return [{'op': 'origin_ref', 'h': 'Z0', 'value': 1}], {}
+        # a zone, a channel of the frame, the frame itself (its data records refer to it) and, where there is one, the
+        # NO-FORMAT object (its records refer to it) are moved to the second origin
+        hs = ['Z0', 'C1', 'F0'] + (['NF'] if spec and any(op.get('h') == 'NF' for op in spec['ops']) else [])
+        return [{'op': 'origin_ref', 'h': h, 'value': 1} for h in hs], {}
     if m == 'units':
         return [{'op': 'set', 'h': 'C0', 'attr': 'units', 'part': 'value', 'value': 'ft'}], {}
     if m == 'value':
@@ -155,7 +159,7 @@ def final_spec(h):
             cur = _spec(int(e[1:]))
             hc_build = hc
         elif e.startswith('M:'):
-            ops, wkw = mutation_ops(e[2:])
+            ops, wkw = mutation_ops(e[2:], cur)
             cur['ops'] = cur['ops'] + ops
             cur['write'] = dict(cur['write'], **wkw)
     if cur is None or h[-1] in ('HC+', 'HC-', 'HCX'):
@@ -243,7 +247,7 @@ def run_history(h):
                         return ('nothing-built', 'the specification the event refers to was refused earlier')
                     continue
                 elif e.startswith('M:'):
-                    ops, wkw = mutation_ops(e[2:])
+                    ops, wkw = mutation_ops(e[2:], spec_now)
                     for op in ops:
                         st = S.apply_op(built, op)
                         if st != 'ok':
